@@ -18,7 +18,7 @@ CHECKS = {
     'C03': ('archsim', 'exploration', '3',
             'seeded operation schedules (4-70 mapping ops, clock steps incl. same-second rewrites, re-opens, '
             'failing ops, listing-order permutations, values above one MiB, keys with input files / long / with '
-            'separators) over every constructible archive configuration, each step compared with a plain dict for the '
+            'separators / outside ASCII (latin-1, decomposed, compatibility, CJK), ints beyond 64 bits for sqlite) over every constructible archive configuration, each step compared with a plain dict for the '
             'target and all sibling archives (30% of runs read the full contents back only every few steps, so that '
             'the harness does not hide state one operation leaves for the next); archives behind symlinks, under odd '
             'names, under relative names in two working directories, siblings of the same name in other directories',
@@ -37,7 +37,8 @@ CHECKS = {
 
 MEMO_NOTE = ('samples configurations and histories (not exhaustive); wrapped callables are deterministic and '
              'equality-respecting (Python signatures incl. float defaults, two required and nine named parameters, '
-             'partials (one overriding a keyword-only default), method, callable instance, wraps decorator, plus the '
+             'partials (one overriding a keyword-only default), method, callable instance, wraps decorator, a function without '
+             'named parameters, one whose parameter names differ by case, plus the '
              'builtin max over comparison-logging ints); results are strings, and for a fixed fraction of calls None, '
              "'', 0 or a string of 9 kB / 1.2 MB; argument pools never mix values equal across types; flat keymaps "
              'with variadic signatures only with a sentinel; in-memory archives do not survive a restart')
@@ -55,11 +56,12 @@ for _p, _txt, _orc in [
             'key is evaluated at most once over the whole history; a second decorated function (own decorator, own memory, '
             'own handle) on the same persistent archive is interleaved and must not evaluate a key that is in its memory '
             'or in the shared archive; float nan arguments (raw keymap, pickled directory archives) are keys unequal to '
-            'their own unpickled copy', 'an evaluation log and the observed memory/archive contents before each call'),
+            'their own unpickled copy; the shared store may be emptied through another handle or by sync(clear=True)', 'an evaluation log and the observed memory/archive contents before each call'),
     ('C05', 'after every call len(cache) <= max(maxsize, len before) over histories with bulk load() overfills, '
             'toggles, restarts and dill copies; maxsize 0/None in keyword and positional spelling; purge empties memory '
             'on overflow of an archived cache; storage fault: the archive\'s directory is removed mid-run (later operations '
-            'may fail, the bound must hold)', 'the capacity invariant after every call'),
+            'may fail, the bound must hold); decorators built without maxsize (bound 100) with more than 100 distinct calls; '
+            'un-keyable arguments of safe caches', 'the capacity invariant after every call'),
     ('C06', 'call-only histories from an empty cache (plus raising calls), up to 400 steps with hit bursts that trigger '
             'the LRU queue compaction, caches of 1000+ entries with 10000+ hits between overflows, caches of 30-40 entries (LFU batch > 2) and sweep workloads that tie all use counts: the set leaving memory on each overflow must be exactly what LRU/MRU/LFU/RR '
             'select according to last-use stamps and use counts kept by the harness; purge configurations whose archive is '
@@ -67,7 +69,7 @@ for _p, _txt, _orc in [
     ('C07', 'every key leaving memory during a call must be in the attached archive with the same value, no archived '
             'entry may change or vanish, and in strict runs every computed result stays retrievable; in "unenc" runs some '
             'results are refused by every encoding: the call or dump() may fail with the encoder\'s error but must lose '
-            'nothing', 'the observed memory/archive contents before and after every call'),
+            'nothing; steps where the shared store is emptied through another handle or by sync(clear=True)', 'the observed memory/archive contents before and after every call'),
     ('C15', 'info() must equal (hits, misses, loads) classified from the evaluation log and residency before each call, '
             'plus configured maxsize and current size, after every step of histories with clear/load/dump/toggle/'
             'restart/clone, raising calls (Exception and BaseException flavours) and safe fallbacks; calls made through a second function built from the SAME '
@@ -80,10 +82,11 @@ for _p, _txt, _orc in [
             'arguments evaluate once and return', 'a lock-step twin world that omits the raising calls'),
     ('C18', 'key()/lookup() probes at seeded points (resident, evicted, never seen arguments; ignore and tol/deep '
             'configurations, float defaults, float subclasses and nested floats under tol, a builtin that cannot be introspected): key() names the entry a call creates, lookup() returns the resident value or raises '
-            'KeyError, neither evaluates; a twin world without probes must show identical observations', 'a lock-step twin world without the probes'),
+            'KeyError, neither evaluates; a call whose arguments key() cannot name creates no entry; a twin world without probes must show identical observations', 'a lock-step twin world without the probes'),
     ('C20', 'dill round trip of the decorated function at a seeded step (a fifth of the runs with tol and deep rounding): equal cache contents, info and settings at the '
             'round trip; the world continuing with the copy and the world continuing with the original must agree at '
-            'every later step (results, resident sets, info); the original is unchanged by what the copy did', 'a lock-step twin world that keeps the original function'),
+            'every later step (results, resident sets, info); the original is unchanged by what the copy did; in some round trips '
+            'the shared store is emptied between dumps() and loads() and the copy must still hold what was pickled', 'a lock-step twin world that keeps the original function'),
 ]:
     CHECKS[_p] = ('memosim', 'exploration', '4', _txt, MEMO_NOTE, MEMO_TECH % _orc)
 
@@ -92,7 +95,8 @@ CHECKS['C13'] = ('crashsim', 'fault_enumeration', '4',
     'cached handle, merging another archive object, and merely opening; sqlite tables also with 500-1100 history rows) EVERY crash point at file-system/SQL-call granularity is executed - process killed '
     'before each mkdir/open-for-write/raw write/close/unlink/rmdir/rename/DML/commit, plus a partial-write crash for every '
     'raw write; for the sqlite file archive additionally at EVERY write/sync/truncate/unlink system call the sqlite C '
-    'library issues (native LD_PRELOAD shim, incl. half-written buffers) - and a fresh process must read the survivor without error and see old-or-new for touched keys, untouched '
+    'library issues (native LD_PRELOAD shim, incl. half-written buffers); a tenth of the single-file scenarios with the '
+    'archive file writable but its directory not (writer demoted to an unprivileged uid) - and a fresh process must read the survivor without error and see old-or-new for touched keys, untouched '
     'keys unchanged and no foreign key',
     'crash points are exhaustive per scenario, scenarios are sampled; process-kill semantics (no power loss/fsync model); '
     'crash points inside sqlite need a C compiler at check time (otherwise only Python-level points run, reported by a probe); '
@@ -104,7 +108,7 @@ CHECKS['C13'] = ('crashsim', 'fault_enumeration', '4',
 CHECKS['C14'] = ('racesim', 'exploration', '4',
     'seeded schedules at file-system/SQL-call granularity over 2-3 real client processes (writer/writer on distinct keys '
     'via set/update/cache.dump/setdefault, writer/reader, overwriter/reader, deleter/reader, clearer/reader, writer/opener, '
-    'a client that discards an absent key and then idles) on dir (all encodings), sqlite-file and single-file archives; the recorded '
+    'a reader holding a half-consumed iterator, a client that discards an absent key and then idles) on dir (all encodings), sqlite-file and single-file archives; the recorded '
     'invoke/return history is checked: nobody fails, every value read was stored for that key by an overlapping or '
     'preceding write, no never-stored key appears, stable keys are not missed, a single-file reader sees one complete '
     'dictionary that existed, a fresh handle sees every acknowledged write; sqlite busy-waits run on virtual time and a '
@@ -118,7 +122,7 @@ CHECKS['C14'] = ('racesim', 'exploration', '4',
 
 CHECKS['C08'] = ('syncsim', 'exploration', '4',
     'seeded interleavings (5-40 steps) of cache mutations, direct archive mutations, dump/load/sync with and without keys '
-    '(incl. absent keys), bare key listings of the attached archive, archived(on/off), open(other)/drop over every backend incl. null; after each step dict(cache), '
+    '(incl. absent keys), mutations through a second handle on the same location, bare key listings of the attached archive, archived(on/off), open(other)/drop over every backend incl. null; after each step dict(cache), '
     'the contents of the attached, parked and replaced archives and archived() are compared with a two-dict model of the '
     'stated algebra',
     'samples interleavings; source-text file archives are driven one rewrite per simulated second (their same-second '
@@ -132,7 +136,7 @@ CHECKS['C17'] = ('sessions', 'exploration', '4',
     'object, other defaults) memoized first; key() of every call must be byte-identical in all sessions and later '
     'sessions must be served by loads without any evaluation, for raw/string/pickle/json/md5/sha1 keymaps x flat x typed x '
     'sentinel over every persistent backend; 8% of the chains use the raw keymap with a nine-parameter function (flat keys '
-    'of more than 16 items) on pickled file/dir archives',
+    'of more than 16 items) on pickled file/dir archives; a function whose parameter names differ by case only',
     "samples chains; arguments restricted to values whose repr/pickle is process independent; ~0.3 s per exec'd session "
     'bounds the number of chains',
     "deterministic simulation with fault injection: seeded chains of exec'd interpreter sessions (hash seed, process state "
